@@ -80,6 +80,7 @@ def _make_resource(r, idx, kind, classes, calls):
 
 
 UNKNOWN = "?"
+RAISE = [None]               # the exception object the next invoked handler raises (after recording the call)
 
 
 def _handler(kind, mname, ann, calls):
@@ -87,12 +88,16 @@ def _handler(kind, mname, ann, calls):
     if kind == "server":
         def h(self, client, seqnum, msg):
             calls.append((id(self), mname, (client, seqnum, msg)))
+            if RAISE[0] is not None:
+                raise RAISE[0]
         h.__annotations__ = {"msg": ann}
         h.__name__ = mname
         return D.server_event(h)
 
     def h(self, seqnum, msg):
         calls.append((id(self), mname, (seqnum, msg)))
+        if RAISE[0] is not None:
+            raise RAISE[0]
     h.__annotations__ = {"msg": ann}
     h.__name__ = mname
     return D.client_event(h)
@@ -123,13 +128,28 @@ def run_case(r, kind, counters, trace):
         calls.clear()
         name = cls.__name__
         err = None
+        # sometimes the handler itself fails: its exception object must come out of dispatch() as it is - DispatchError means
+        # "nothing is registered and nothing was called"
+        boom = None
+        if r.random() < 0.12:
+            boom = r.choice([KeyError, LookupError, ValueError, RuntimeError, AttributeError, IndexError, TypeError])("raised by the handler: " + name)
+        RAISE[0] = boom
         try:
             disp.dispatch(*args)
         except D.DispatchError as e:
             err = e
         except Exception as e:
-            return viol("dispatch-raised-other", "dispatch(%s) raised %r" % (name, e))
+            if e is not boom:
+                RAISE[0] = None
+                return viol("dispatch-raised-other", "dispatch(%s) raised %r" % (name, e))
+        finally:
+            RAISE[0] = None
         counters.inc("dispatch")
+        if boom is not None and calls:
+            counters.inc("dispatch_with_raising_handler")
+            if err is not None:
+                return viol("handler-exception-replaced", "the handler %r was invoked and raised %r; dispatch() raised DispatchError(%s) instead of letting it through" % (
+                    calls[0][1], boom, err))
         if name in unknown:
             cands = unknown.pop(name)
             # statement silent about this class's state: accept any candidate, then pin the model
@@ -319,6 +339,30 @@ def run_case(r, kind, counters, trace):
             else:
                 # nothing registered: raising (any exception) or a no-op are both acceptable
                 pass
+    # a resource whose only owner is the dispatcher (the application registered it and kept no reference): its handlers work
+    if r.random() < 0.3:
+        import gc
+        disp2 = D.ServerMessageDispatcher() if kind == "server" else D.ClientMessageDispatcher()
+        anon = _make_resource(r, 99, kind, classes, calls)
+        handled, rid = list(anon._handled), id(anon)
+        disp2.register(anon)
+        del anon
+        gc.collect()
+        counters.inc("sole_owner_resources")
+        from mpgameserver import SeqNum
+        for name, mname, style in handled:
+            cls = [k for k in classes if k.__name__ == name][0]
+            args = (object(), SeqNum(7), cls()) if kind == "server" else (SeqNum(7), cls())
+            calls.clear()
+            trace.append("sole-owner-dispatch(%s)" % name)
+            try:
+                disp2.dispatch(*args)
+            except Exception as e:
+                return viol("sole-owner-dispatch-raised", "dispatch(%s) to a resource only the dispatcher refers to raised %r" % (name, e))
+            if len(calls) != 1 or calls[0][0] != rid or calls[0][1] != mname or any(a is not b for a, b in zip(calls[0][2], args)):
+                return viol("sole-owner-handler-not-invoked", "dispatch(%s) to a resource only the dispatcher refers to: calls %r, expected %s" % (
+                    name, [(c_[1]) for c_ in calls], mname))
+            counters.inc("sole_owner_dispatch_ok")
     # final sweep: probe every class
     for cls in classes:
         trace.append("final-dispatch(%s)" % cls.__name__)
@@ -361,7 +405,7 @@ def run_shard(cfg):
 def finish(tier, seed, results):
     m = merge(results)
     inconclusive = []
-    need(m["counters"], ["dispatch_registered_ok", "dispatch_unregistered_ok", "duplicate_register",
+    need(m["counters"], ["sole_owner_dispatch_ok", "dispatch_with_raising_handler", "dispatch_registered_ok", "dispatch_unregistered_ok", "duplicate_register",
                          "unregister", "register"], inconclusive)
     cov = {
         "evaluations": m["evaluations"],
